@@ -14,32 +14,40 @@ EXTENDS Naturals, Sequences, FiniteSets, TLC
 CONSTANT ProgressRestored   \* into_outcome is total even when a step failed after taking the progress (D8 when FALSE)
 
 Undecodable == {"Garbage", "Oversize", "Partial"}
-Inits == {"InitOk", "InitUnknown"}
-Syncs == {"SyncValid", "SyncArb"}
+\* "...BadId": a decodable message whose record identifiers are shorter than namespace + author
+Inits == {"InitOk", "InitUnknown", "InitBadId"}
+Syncs == {"SyncValid", "SyncArb", "SyncBadId"}
+Malformed == {"InitBadId", "SyncBadId"}
 Terminal == {"ok", "err", "abort"}
 
 \* acceptor: state [ns: namespace set, prog: "some" | "none"]; returns the set of allowed <<reaction, state'>>
 BobReact(st, frame, cond, accept) ==
-  LET fail == <<"err", [st EXCEPT !.prog = IF ProgressRestored THEN "some" ELSE "none"]>> IN
+  LET fail == <<"err", [st EXCEPT !.prog = IF ProgressRestored THEN "some" ELSE "none"]>>
+      failNs == <<fail[1], [fail[2] EXCEPT !.ns = TRUE]>>
+      \* a frame with malformed identifiers may also be refused by the decoder (like garbage) or fail in processing
+      extraInit == IF frame \in Malformed THEN {<<"err", st>>, failNs} ELSE {}
+      extraSync == IF frame \in Malformed THEN {<<"err", st>>, fail} ELSE {}
+  IN
   IF frame \in Undecodable THEN {<<"err", st>>}
   ELSE IF frame = "Eof" THEN {<<IF st.ns THEN "ok" ELSE "err", st>>}
   ELSE IF frame = "Abort" THEN {<<"err", st>>}
   ELSE IF frame \in Inits THEN
        IF st.ns THEN {<<"err", st>>}
-       ELSE IF accept # "Allow" THEN {<<"abort", st>>}
-       ELSE IF cond # "ok" \/ frame = "InitUnknown" THEN {<<fail[1], [fail[2] EXCEPT !.ns = TRUE]>>}
-       ELSE {<<"reply", [st EXCEPT !.ns = TRUE]>>, <<"ok", [st EXCEPT !.ns = TRUE]>>}
+       ELSE IF accept # "Allow" THEN {<<"abort", st>>} \cup (IF frame \in Malformed THEN {<<"err", st>>} ELSE {})
+       ELSE IF cond # "ok" \/ frame = "InitUnknown" THEN {failNs} \cup extraInit
+       ELSE {<<"reply", [st EXCEPT !.ns = TRUE]>>, <<"ok", [st EXCEPT !.ns = TRUE]>>} \cup extraInit
   ELSE \* Sync
        IF ~st.ns THEN {<<"err", st>>}
-       ELSE IF cond # "ok" THEN {fail}
-       ELSE {<<"reply", st>>, <<"ok", st>>}
+       ELSE IF cond # "ok" THEN {fail} \cup extraSync
+       ELSE {<<"reply", st>>, <<"ok", st>>} \cup extraSync
 
 \* initiator: reactions to a frame once the Init was sent
 AliceReact(frame, cond) ==
   IF frame \in Undecodable \/ frame \in Inits THEN {"err"}
   ELSE IF frame = "Eof" THEN {"ok"}
   ELSE IF frame = "Abort" THEN {"abort"}
-  ELSE IF cond # "ok" THEN {"err"} ELSE {"reply", "ok"}
+  ELSE IF cond # "ok" THEN {"err"}
+  ELSE IF frame \in Malformed THEN {"err", "reply", "ok"} ELSE {"reply", "ok"}
 AliceStart(cond) == IF cond = "ok" THEN {"init"} ELSE {"err"}
 
 BobInit == [ns |-> FALSE, prog |-> "some"]
